@@ -53,6 +53,12 @@ type Behave struct {
 	Idx      int    `json:"idx"`
 	Kind     string `json:"kind"` // ok | recoverable | unrecoverable | slow | hang
 	D        int    `json:"d,omitempty"`
+	Us       int    `json:"us,omitempty"` // slow: extra microseconds on top of D seconds (a delivery accepted a moment before the next tick)
+}
+
+// Dur: how long a slow delivery takes.
+func (b Behave) Dur() time.Duration {
+	return time.Duration(b.D)*time.Second + time.Duration(b.Us)*time.Microsecond
 }
 
 type Step struct {
